@@ -4,7 +4,6 @@ use super::diff::{diff, DiffOpts};
 use super::seq_inv::SeqCase;
 use super::*;
 use crate::ast::*;
-use crate::real::*;
 use proptest::prelude::*;
 
 #[derive(Clone, Debug)]
